@@ -132,6 +132,14 @@ def run_history(kind, hist, mutate_at=None, mutate_which=None, reads=()):
     return readouts(kind, acc), facts, acc
 
 
+def build(kind, hist):
+    """accumulate a history without ever reading a read-out"""
+    acc = make(kind)
+    for h in hist:
+        acc.accumulate(h.copy() if isinstance(h, np.ndarray) else h)
+    return acc
+
+
 def check(ctx):
     rng = ctx.rng
     lines, metas = [], []
@@ -168,7 +176,8 @@ def check(ctx):
         # reads are pure
         rd = tuple(sorted(rng.choice(range(n)) for _ in range(rng.randint(1, 5))))
         withreads, _, _ = run_history(kind, hist, reads=rd)
-        if withreads != base:
+        never_read = readouts(kind, build(kind, hist))
+        if withreads != base or never_read != base:
             ctx.fail('reading-influences-accumulation:' + kind, 'reading the read-outs at steps %s changed the final state' % (rd,), case)
         acc2 = run_history(kind, hist)[2]
         r1, r2, r3 = readouts(kind, acc2), readouts(kind, acc2), readouts(kind, acc2)
@@ -211,6 +220,16 @@ def check(ctx):
                 ctx.fail('merge-aliases-other:' + kind, 'accumulating into the receiver after a merge (receiver %s before the merge) changed the '
                          'accumulator that had been merged in' % ('empty' if not recv_hist else 'non-empty'), case)
                 break
+        # reading before a merge must not influence what the merge produces
+        quiet = build(kind, h1)
+        peek = build(kind, h1)
+        for _ in range(rng.randint(1, 3)):
+            readouts(kind, peek)
+        quiet.accumulate(build(kind, h2))
+        peek.accumulate(build(kind, h2))
+        if readouts(kind, quiet) != readouts(kind, peek):
+            ctx.fail('reading-influences-accumulation:' + kind, 'reading the read-outs before a merge changed the result of the merge', case)
+            continue
         sa = readouts(kind, a)
         for x in internals(b):
             if x.flags.writeable:
